@@ -1,4 +1,5 @@
 import Gonuts.Lemmas.Algebra
+import Gonuts.Lemmas.RandomOracle
 
 /-!
 # C10 — blind signatures and DLEQ proofs are algebraically correct and tamper-evident
@@ -37,9 +38,12 @@ need `ZMod n` to be a field carry `[Fact n.Prime]` (and say which point must be 
 ## What is NOT proved (and cannot be, by this technique)
 * Changing `e` ALONE: algebra only gives the fixed-point characterisation `dleq_tamper_e_iff`
   (`accept ↔ e = hashE (sG − eA, sB' − eC', A, C')`) and that a changed `e` queries the hash at a different point
-  (`dleq_tamper_e_fresh_input`, for `A ≠ 0`). That a changed `e` is "always" rejected is a random-oracle statement
-  (a fresh hash value equals the chosen `e'` with probability `1/n`); no collision is involved, so there is no
-  reduction to state. This case is covered by the differential stream `bdhke` only.
+  (`dleq_tamper_e_fresh_input`, for `A ≠ 0`). No collision is involved, so there is no reduction to state. That a changed
+  `e` is "always" rejected is a RANDOM-ORACLE statement about the hash, which this technique does not prove for the
+  concrete function SHA-256; that case is covered by the differential stream `bdhke` only. What IS proved is the
+  counting form of the random-oracle argument (section `RandomOracle`, `dleq_tamper_e_random_oracle`): among all
+  functions `hashE` under which the original transcript is accepted, exactly a `1/n` fraction accepts the transcript
+  with `e` replaced by a fixed `e' ≠ e` — a statement about the uniform distribution on functions, not about SHA-256.
 * "Collisions of `hashE` / unique-challenge hits are infeasible to find" is a computational assumption about SHA-256;
   it appears in no statement, only in how the conclusions are read.
 * NOT modelled corner of the Go code: `VerifyDLEQ` compares the REDUCED scalar `e` (`e.Serialize()`, `e < n`) with the
@@ -198,6 +202,92 @@ theorem proofDleq_tamper_e_iff (e s r : ZMod n) (A Y C : G) :
     proofDleqVerify g hashE e s r A Y C ↔
       e = hashE (s • g - e • A, s • (Y + r • g) - e • (C + r • A), A, C + r • A) := by
   simp only [proofDleqVerify, dleq_tamper_e_iff, blind]
+
+/-! ### `nut12.VerifyProofsDLEQ` (the wallet's check on receive / swap): key lookup by amount, optional DLEQ -/
+
+theorem proofsDleqVerify_iff {Amount : Type*} (pub : Amount → Option G) (ps : List (DProof Amount G n)) :
+    proofsDleqVerify g hashE pub ps ↔ ∀ p ∈ ps, proofDleqOk g hashE pub p := by
+  induction ps with
+  | nil => simp [proofsDleqVerify]
+  | cons p ps ih => simp [proofsDleqVerify, ih]
+
+/-- A list of proofs honestly built from mint signatures (any keys of the keyset, any nonces, any blinding factors)
+passes. -/
+theorem proofsDleq_complete {Amount : Type*} (priv : Amount → Option (ZMod n))
+    (ts : List (Amount × ZMod n × ZMod n × ZMod n × G))   -- (amount, key, nonce, r, Y)
+    (hk : ∀ t ∈ ts, priv t.1 = some t.2.1) :
+    proofsDleqVerify g hashE (fun a => (priv a).map (· • g))
+      (ts.map fun (a, k, nonce, r, Y) =>
+        let C' := sign (blind g Y r) k
+        let es := dleqGen g hashE nonce k (blind g Y r) C'
+        { amount := a, Y := Y, C := unblind C' r (k • g), dleq := some (es.1, es.2, some r) }) := by
+  rw [proofsDleqVerify_iff]
+  intro p hp
+  obtain ⟨⟨a, k, nonce, r, Y⟩, ht, rfl⟩ := List.mem_map.mp hp
+  have := hk _ ht
+  simp only at this
+  simp only [proofDleqOk, this, Option.map_some]
+  exact proofDleq_complete g hashE nonce k r Y
+
+/-- Amount changed to something that is not a key of the keyset: rejected outright. -/
+theorem proofsDleq_amount_not_key {Amount : Type*} (pub : Amount → Option G) (ps : List (DProof Amount G n))
+    (p : DProof Amount G n) (hp : p ∈ ps) (hd : p.dleq ≠ none) (ha : pub p.amount = none) :
+    ¬ proofsDleqVerify g hashE pub ps := by
+  rw [proofsDleqVerify_iff]
+  intro h
+  have := h p hp
+  unfold proofDleqOk at this
+  cases hdl : p.dleq with
+  | none => exact hd hdl
+  | some d => obtain ⟨e, s, r?⟩ := d; simp only [hdl, ha] at this
+
+/-- `r` removed from a DLEQ that is otherwise present: rejected. -/
+theorem proofsDleq_r_removed {Amount : Type*} (pub : Amount → Option G) (ps : List (DProof Amount G n))
+    (p : DProof Amount G n) (hp : p ∈ ps) (e s : ZMod n) (hd : p.dleq = some (e, s, none)) :
+    ¬ proofsDleqVerify g hashE pub ps := by
+  rw [proofsDleqVerify_iff]
+  intro h
+  have := h p hp
+  unfold proofDleqOk at this
+  simp only [hd] at this
+  cases hA : pub p.amount <;> simp only [hA] at this
+
+/-- An accepted list: every proof that carries a DLEQ satisfies `VerifyProofDLEQ` under the key of ITS amount — so the
+single-proof tamper lemmas (`proofDleq_tamper_*`) apply to each element. -/
+theorem proofsDleq_each {Amount : Type*} (pub : Amount → Option G) (ps : List (DProof Amount G n))
+    (h : proofsDleqVerify g hashE pub ps) (p : DProof Amount G n) (hp : p ∈ ps) (e s : ZMod n) (r? : Option (ZMod n))
+    (hd : p.dleq = some (e, s, r?)) :
+    ∃ A r, pub p.amount = some A ∧ r? = some r ∧ proofDleqVerify g hashE e s r A p.Y p.C := by
+  have := (proofsDleqVerify_iff g hashE pub ps).mp h p hp
+  unfold proofDleqOk at this
+  simp only [hd] at this
+  cases hA : pub p.amount with
+  | none => simp only [hA] at this
+  | some A =>
+    cases hr : r? with
+    | none => simp only [hA, hr] at this
+    | some r => simp only [hA, hr] at this; exact ⟨A, r, rfl, rfl, this⟩
+
+/-- By design (NUT-12: DLEQ is optional) a proof whose DLEQ was STRIPPED altogether is not detected by this check. -/
+theorem proofsDleq_stripped {Amount : Type*} (pub : Amount → Option G) (ps : List (DProof Amount G n))
+    (h : ∀ p ∈ ps, p.dleq = none) : proofsDleqVerify g hashE pub ps := by
+  rw [proofsDleqVerify_iff]
+  intro p hp
+  simp only [proofDleqOk, h p hp]
+
+-- non-vacuity: a keyset with one key (amount 0 ↦ 3), amount 1 is not a key
+example : proofsDleqVerify (1 : ZMod 7) h7 (fun a : Fin 2 => (if a = 0 then some (3 : ZMod 7) else none).map (· • (1 : ZMod 7)))
+    ([((0 : Fin 2), (3 : ZMod 7), (4 : ZMod 7), (5 : ZMod 7), (2 : ZMod 7))].map fun (a, k, nonce, r, Y) =>
+      let C' := sign (blind (1 : ZMod 7) Y r) k
+      let es := dleqGen (1 : ZMod 7) h7 nonce k (blind (1 : ZMod 7) Y r) C'
+      { amount := a, Y := Y, C := unblind C' r (k • (1 : ZMod 7)), dleq := some (es.1, es.2, some r) }) :=
+  proofsDleq_complete (1 : ZMod 7) h7 (fun a : Fin 2 => if a = 0 then some (3 : ZMod 7) else none) _ (by simp)
+example : ¬ proofsDleqVerify (1 : ZMod 7) h7 (fun a : Fin 2 => if a = 0 then some (3 : ZMod 7) else none)
+    [{ amount := 1, Y := 2, C := 6, dleq := some (3, 6, some 5) }] :=
+  proofsDleq_amount_not_key _ _ _ _ _ (List.mem_singleton.mpr rfl) (by simp) (by decide)
+example : ¬ proofsDleqVerify (1 : ZMod 7) h7 (fun a : Fin 2 => if a = 0 then some (3 : ZMod 7) else none)
+    [{ amount := 0, Y := 2, C := 6, dleq := some (3, 6, none) }] :=
+  proofsDleq_r_removed _ _ _ _ _ (List.mem_singleton.mpr rfl) 3 6 rfl
 
 end Correct
 
@@ -365,5 +455,55 @@ theorem dleq_tamper_e_fresh_input {e e' s : ZMod n} {A B' C' : G} (hA : A ≠ 0)
   exact he (neg_injective (smul_left_cancel_of_ne_zero hA h1))
 
 end Prime
+
+/-! ## The random-oracle argument in COUNTING form
+
+`Nat.card {h // …}` counts hash FUNCTIONS `h : G⁴ → ZMod n`. "Exactly a `1/n` fraction of the functions that accept
+transcript `T` also accept `T'`" is the statement "for a uniformly random function (a random oracle), the probability
+that `T'` is accepted given that `T` is accepted is exactly `1/n`" — for transcripts fixed independently of the
+function (one non-adaptive attempt; an adversary with `q` hash queries gets `q` attempts). It says nothing about the one
+concrete function SHA-256. For infinite `G` all counts are `0`; `dleq_accepting_hashes_pos` is the finite case. -/
+section RandomOracle
+variable {n : ℕ} {G : Type*} [AddCommGroup G] [Module (ZMod n) G]
+variable (g : G)
+
+/-- Any fixed transcript is accepted by exactly a `1/n` fraction of all hash functions (so also: a fixed proof for a
+false statement, cf. `dleq_forgery_unique_challenge`). -/
+theorem dleq_accept_fraction (e s : ZMod n) (A B' C' : G) :
+    Nat.card {h : G × G × G × G → ZMod n // dleqVerify g h e s A B' C'} * n
+      = Nat.card (G × G × G × G → ZMod n) := by
+  classical
+  have := card_fix_value (β := ZMod n) (dleqInput g e s A B' C') e
+  rwa [Nat.card_zmod] at this
+
+/-- Two transcripts whose hash inputs differ: among the hash functions accepting the first, exactly a `1/n` fraction
+accepts the second. -/
+theorem dleq_fresh_input_random_oracle {e e' s s' : ZMod n} {A A₂ B₁ B₂ C₁ C₂ : G}
+    (hx : dleqInput g e s A B₁ C₁ ≠ dleqInput g e' s' A₂ B₂ C₂) :
+    Nat.card {h : G × G × G × G → ZMod n // dleqVerify g h e s A B₁ C₁ ∧ dleqVerify g h e' s' A₂ B₂ C₂} * n
+      = Nat.card {h : G × G × G × G → ZMod n // dleqVerify g h e s A B₁ C₁} := by
+  classical
+  have := card_fix_one_more (β := ZMod n) (fun h => dleqVerify g h e s A B₁ C₁) (dleqInput g e' s' A₂ B₂ C₂) e'
+    (fun h c => by simp only [dleqVerify, Function.update_of_ne hx])
+  rwa [Nat.card_zmod] at this
+
+/-- `e` changed alone (real public key `A ≠ 0`): among the hash functions under which the original transcript is
+accepted, exactly a `1/n` fraction accepts the transcript with `e` replaced by `e'`. -/
+theorem dleq_tamper_e_random_oracle [Fact n.Prime] {e e' s : ZMod n} {A B' C' : G} (hA : A ≠ 0) (he : e ≠ e') :
+    Nat.card {h : G × G × G × G → ZMod n // dleqVerify g h e s A B' C' ∧ dleqVerify g h e' s A B' C'} * n
+      = Nat.card {h : G × G × G × G → ZMod n // dleqVerify g h e s A B' C'} :=
+  dleq_fresh_input_random_oracle g (dleq_tamper_e_fresh_input g hA he)
+
+/-- … and for a finite group that set of hash functions is non-empty (so the fraction is a genuine `1/n`). -/
+theorem dleq_accepting_hashes_pos [Fact n.Prime] [Finite G] (e s : ZMod n) (A B' C' : G) :
+    0 < Nat.card {h : G × G × G × G → ZMod n // dleqVerify g h e s A B' C'} := by
+  have : NeZero n := ⟨(Fact.out : n.Prime).ne_zero⟩
+  have : Nonempty {h : G × G × G × G → ZMod n // dleqVerify g h e s A B' C'} := ⟨⟨fun _ => e, rfl⟩⟩
+  exact Nat.card_pos
+
+-- hypotheses satisfiable: ZMod 7, A = 3 ≠ 0, e = 3 accepted under h7, e' = 4
+example : (3 : ZMod 7) ≠ 0 ∧ (3 : ZMod 7) ≠ 4 ∧ dleqVerify (1 : ZMod 7) h7 3 6 3 2 6 := by decide
+
+end RandomOracle
 
 end Gonuts.Props.C10
